@@ -144,16 +144,14 @@ def r12_3(ctx):
     ok = len(rts) == 1 and rts[0][0] == 'agg' and rts[0][3] == 'RadialGradient'
     if ok:
         f = [x for _, x in rts[0][4]]
-        t = strip_all(f[2])
-        ok = f[0] == P(1) and f[1] == P(4) and is_call(t, 'unwrap') and is_call(t[2][0], 'inverse')
-        if ok:
-            th = strip_all(t[2][0][2][0])
-            ok = is_call(th, 'Transform2D::<T, Src, Dst>::then')
-            if ok:
-                sc, tl = strip_all(th[2][0]), strip_all(th[2][1])
-                ok = (is_call(sc, 'Transform2D::<T, Src, Dst>::scale') and sc[2] == (P(3), P(3)) and is_call(tl, 'translation')
-                      and tl[2] == (('field', P(2), 'x', 'euclid::Point2D', None), ('field', P(2), 'y', 'euclid::Point2D', None)))
-    ctx.check(ok, R, 'draw_target::Source::new_radial_gradient', b.loc(), 'transform = (scale(r,r).then(translation(center))).inverse()', 'new_radial_gradient\'s transform is not scale(radius, radius).then(&translation(center.x, center.y)).inverse(): %s' % [fmt(b, t) for t in rts])
+        import geomalg
+        va = geomalg.VA(ctx)
+        cx, cy = Poly.leaf(('field', P(2), 'x', 'P', None)), Poly.leaf(('field', P(2), 'y', 'P', None))
+        r = Poly.leaf(P(3))
+        zero = Poly()
+        forward = geomalg.Aff(r, zero, zero, r, cx, cy)      # unit circle at the origin -> circle(center, radius)
+        ok = f[0] == P(1) and f[1] == P(4) and geomalg.is_inverse_of(va, f[2], forward)
+    ctx.check(ok, R, 'draw_target::Source::new_radial_gradient', b.loc(), 'transform = inverse of p -> p*radius + center', 'new_radial_gradient\'s transform is not the inverse of scale(radius, radius).then(translation(center)) (neither written as .inverse() of that map nor as a map M with forward.then(M) == identity, e.g. translation(-center).then_scale(1/radius, 1/radius)): %s' % [fmt(b, t) for t in rts])
     # new_linear_gradient(gradient, start, end, spread)
     b = ctx.body(S + 'new_linear_gradient', R)
     an = ctx.an(b)
